@@ -113,7 +113,7 @@ pub fn search(_obl: &str) -> Vec<Witness> {
     }
     for &c in ALPHA { if let Some(w) = check_one(&format!("char:{c}")) { found.push(w); } }
     for u in [0x80u32, 0xe9, 0xff, 0x100, 0x141, 0x1F600] { if let Some(c) = char::from_u32(u) { if let Some(w) = check_one(&format!("char:{c}")) { found.push(w); } } }
-    crate::util::strings(ALPHA, 3, |s| { if let Some(w) = check_one(&format!("str:{s}")) { found.push(w); } found.len() >= 12 });
+    crate::util::strings(ALPHA, if crate::util::deep() { 4 } else { 3 }, |s| { if let Some(w) = check_one(&format!("str:{s}")) { found.push(w); } found.len() >= 12 });
     for b in 0u16..256 { if let Some(w) = check_one(&format!("bytes:{:02x}", b)) { found.push(w); } }
     for h in ["", "0001", "27275c78", "ff00ff", "deadbeef"] { if let Some(w) = check_one(&format!("bytes:{h}")) { found.push(w); } }
     found.truncate(16);
